@@ -189,7 +189,7 @@ pub fn generate(ctx: &mut Ctx) {
         }
         bi += 1;
     }
-    let n = ctx.by_tier(160_000u64, 2_000_000u64) / ctx.nshards;
+    let n = ctx.by_tier(160_000u64, 8_000_000u64) / ctx.nshards;
     for i in 0..n {
         let mut rng = ctx.rng("conv", i);
         let mut o = gen::Opts::new(rng.chance(1, 2));
